@@ -117,6 +117,10 @@ PROPS["C07"] = dict(
     steps=[
         dict(layer="native", monitor="c07", shards_quick=4, shards_thorough=16),
         dict(layer="miri", monitor="c07", shards_quick=8, shards_thorough=16, budget_quick=16, budget_thorough=64),
+        # tokio / smol transports over real Unix sockets: a plain writer thread dribbles the messages into the socket in
+        # pieces while every receive is wrapped in a 0..3 ms timer and started again when it fires
+        dict(layer="native", package="rt", monitor="c07", tag="real", shards_quick=8, shards_thorough=16,
+             budget_quick=8000, budget_thorough=200_000, timeout_quick=900),
     ],
 )
 
